@@ -11,3 +11,6 @@ rsync -a --delete --files-from=.scratch/lead.files /verif/ $dst/
 cp /repo/go.sum $dst/go.sum
 VERIF_BUILD_TAG=lead python3 scripts/overlaygen.py >/dev/null
 cd $dst && go build -tags verif -overlay /verif/.build/overlay-lead-base.json -o /verif/.build/bin/verif-lead ./cmd/verif
+# seeds binary for C08
+cd /verif && VERIF_BUILD_TAG=lead python3 scripts/runtimepatch.py >/dev/null
+cd $dst && go build -tags verif -overlay /verif/.build/overlay-lead-seeds.json -o /verif/.build/bin/verif-lead.seeds ./cmd/verif
